@@ -662,4 +662,220 @@ theorem scan_desc_no_cache (l : List Str) (hd : Desc l) (h : ∃ v ∈ l, (split
         · exact absurd hdir h2
         · exact ⟨v, hv', hdir⟩
 
+/-! ### number of resources that hold a stored response -/
+
+def isVal : Slot → Bool
+  | .val _ => true
+  | .sentinel => false
+
+def nonEmpty (uc : UriCache) : Bool := uc.slots.any fun s => isVal s.2
+
+def countRes : Store → Nat
+  | [] => 0
+  | (_, uc) :: t => (if nonEmpty uc then 1 else 0) + countRes t
+
+theorem countRes_le_length (s : Store) : countRes s ≤ s.length := by
+  induction s with
+  | nil => simp [countRes]
+  | cons hd t ih =>
+    obtain ⟨a, b⟩ := hd
+    simp only [countRes, List.length_cons]
+    split <;> omega
+
+theorem length_aset_of_mem (s : Store) (u : Str) (uc uc' : UriCache) (h : aget s u = some uc) :
+    (aset s u uc').length = s.length := by
+  induction s with
+  | nil => simp [aget] at h
+  | cons hd t ih =>
+    obtain ⟨a, b⟩ := hd
+    simp only [aget] at h
+    simp only [aset]
+    split
+    · simp
+    · rename_i hne
+      simp only [hne, if_false] at h
+      simp [ih h]
+
+theorem countRes_aset_of_le (s : Store) (u : Str) (uc uc' : UriCache) (hg : aget s u = some uc)
+    (h : nonEmpty uc' = true → nonEmpty uc = true) : countRes (aset s u uc') ≤ countRes s := by
+  induction s with
+  | nil => simp [aget] at hg
+  | cons hd t ih =>
+    obtain ⟨a, b⟩ := hd
+    simp only [aget] at hg
+    simp only [aset]
+    split
+    · rename_i he
+      simp only [he, if_true] at hg
+      cases hg
+      simp only [countRes]
+      cases h1 : nonEmpty uc' <;> cases h2 : nonEmpty uc <;> simp_all
+    · rename_i hne
+      simp only [hne, if_false] at hg
+      simp only [countRes]
+      have := ih hg
+      omega
+
+theorem countRes_aset_empty (s : Store) (u : Str) (uc' : UriCache) (h : nonEmpty uc' = false) :
+    countRes (aset s u uc') ≤ countRes s := by
+  induction s with
+  | nil => simp [aset, countRes, h]
+  | cons hd t ih =>
+    obtain ⟨a, b⟩ := hd
+    simp only [aset]
+    split
+    · simp only [countRes, h]
+      split <;> simp_all
+    · simp only [countRes]
+      omega
+
+theorem countRes_adel (s : Store) (u : Str) : countRes (adel s u) ≤ countRes s := by
+  induction s with
+  | nil => simp [adel, countRes]
+  | cons hd t ih =>
+    obtain ⟨a, b⟩ := hd
+    simp only [adel]
+    split
+    · simp only [countRes]; omega
+    · simp only [countRes]; omega
+
+theorem any_aset_sentinel (l : List (List Str × Slot)) (k : List Str)
+    (h : (aset l k Slot.sentinel).any (fun s => isVal s.2) = true) : l.any (fun s => isVal s.2) = true := by
+  induction l with
+  | nil => simp [aset, isVal] at h
+  | cons hd t ih =>
+    obtain ⟨a, b⟩ := hd
+    simp only [aset] at h
+    split at h
+    · simp only [List.any_cons, isVal, Bool.false_or] at h
+      simp only [List.any_cons, Bool.or_eq_true]
+      exact Or.inr h
+    · simp only [List.any_cons, Bool.or_eq_true] at h ⊢
+      rcases h with h | h
+      · exact Or.inl h
+      · exact Or.inr (ih h)
+
+theorem any_adel (l : List (List Str × Slot)) (k : List Str)
+    (h : (adel l k).any (fun s => isVal s.2) = true) : l.any (fun s => isVal s.2) = true := by
+  induction l with
+  | nil => simp [adel] at h
+  | cons hd t ih =>
+    obtain ⟨a, b⟩ := hd
+    simp only [adel] at h
+    split at h
+    · simp only [List.any_cons, Bool.or_eq_true]
+      exact Or.inr (ih h)
+    · simp only [List.any_cons, Bool.or_eq_true] at h ⊢
+      rcases h with h | h
+      · exact Or.inl h
+      · exact Or.inr (ih h)
+
+theorem get_countRes (c : Cache) (r : Req) : countRes (c.get r).1.store ≤ countRes c.store := by
+  unfold Cache.get
+  split
+  · exact Nat.le_refl _
+  · rename_i uc hg
+    dsimp only
+    split
+    · exact Nat.le_refl _
+    · exact Nat.le_refl _
+    · exact countRes_aset_of_le _ _ uc _ hg (any_aset_sentinel _ _)
+
+theorem sweepOne_countRes (s : Store) (cur : Int) (e : Entry) : countRes (sweepOne s cur e).1 ≤ countRes s := by
+  unfold sweepOne
+  split
+  · exact Nat.le_refl _
+  · rename_i uc hg
+    split
+    · exact Nat.le_refl _
+    · exact countRes_aset_of_le _ _ uc _ hg (any_adel _ _)
+
+theorem sweepAll_countRes (now : Nat) (es : List Entry) (s : Store) (cur : Int) :
+    countRes (sweepAll now es s cur).1 ≤ countRes s := by
+  induction es generalizing s cur with
+  | nil => exact Nat.le_refl _
+  | cons e es ih =>
+    simp only [sweepAll]
+    split
+    · exact Nat.le_trans (ih _ _) (sweepOne_countRes s cur e)
+    · exact ih _ _
+
+/-- number of resources holding a response: none, or fewer than `maxobjects` -/
+def CountInv (cfg : Cfg) (s : Store) : Prop := countRes s = 0 ∨ countRes s < cfg.maxobjects
+
+theorem CountInv.of_le {cfg : Cfg} {s s' : Store} (h : CountInv cfg s) (hle : countRes s' ≤ countRes s) :
+    CountInv cfg s' := by
+  unfold CountInv at *
+  omega
+
+theorem put_countInv {cfg : Cfg} {c : Cache} (h : CountInv cfg c.store) (r : Req) (p : Plan) (gen now : Nat) :
+    CountInv cfg (c.put cfg r p gen now).store := by
+  have key : ∀ (store1 : Store) (uc uc0 : UriCache), aget store1 r.uri = some uc0 →
+      countRes store1 ≤ countRes c.store → CountInv cfg
+      (if store1.length < cfg.maxobjects then
+        if p.size < cfg.maxobjSize ∧ c.cursize + (p.size : Int) < cfg.maxsize then
+          ({ store := aset store1 r.uri { uc with slots := aset uc.slots (uc.sel.map (hget r)) (.val ⟨gen, now⟩) }
+             exps := c.exps ++ [⟨now + tps * cfg.delay, p.size, r.uri,
+               if cfg.sweepByNames then uc.sel else uc.sel.map (hget r)⟩]
+             cursize := c.cursize + p.size } : Cache)
+        else { c with store := store1 }
+      else { c with store := store1 }).store := by
+    intro store1 uc uc0 hg hle
+    split
+    · rename_i hlen
+      split
+      · right
+        dsimp only
+        have h1 := countRes_le_length (aset store1 r.uri
+          { uc with slots := aset uc.slots (uc.sel.map (hget r)) (.val ⟨gen, now⟩) })
+        rw [length_aset_of_mem _ _ uc0 _ hg] at h1
+        omega
+      · exact h.of_le hle
+    · exact h.of_le hle
+  unfold Cache.put
+  cases hg : aget c.store r.uri with
+  | some uc0 => exact key c.store uc0 uc0 hg (Nat.le_refl _)
+  | none =>
+    exact key _ _ _ (aget_aset_self _ _ _) (countRes_aset_empty _ _ _ (by simp [nonEmpty]))
+
+theorem tee_countInv {cfg : Cfg} {c : Cache} (h : CountInv cfg c.store) (r : Req) (p : Plan) (gen now : Nat) :
+    CountInv cfg (tee cfg c r p gen now).store := by
+  unfold tee
+  split
+  · exact h
+  · split
+    · exact h
+    · split
+      · exact h.of_le (countRes_adel _ _)
+      · exact put_countInv h r p gen now
+
+theorem request_countInv {cfg : Cfg} {w : World} (h : CountInv cfg w.cache.store) (r : Req) (p : Plan) :
+    CountInv cfg (request cfg w r p).1.cache.store := by
+  have hget : CountInv cfg (w.cache.get r).1.store := h.of_le (get_countRes _ _)
+  unfold request
+  split
+  · exact h.of_le (countRes_adel _ _)
+  · split
+    · exact tee_countInv h r p _ _
+    · split
+      · exact tee_countInv hget r p _ _
+      · split
+        · exact h
+        · exact tee_countInv h r p _ _
+        · split
+          · exact tee_countInv h r p _ _
+          · exact h
+
+theorem runOps_countInv {cfg : Cfg} (ops : List Op) (w : World) (h : CountInv cfg w.cache.store) :
+    CountInv cfg (runOps cfg w ops).cache.store := by
+  induction ops generalizing w with
+  | nil => exact h
+  | cons op ops ih =>
+    simp only [runOps]
+    apply ih
+    cases op with
+    | req r p => exact request_countInv h r p
+    | tick n => exact h
+    | sweep => exact h.of_le (sweepAll_countRes _ _ _ _)
+
 end CpProofs.C15
